@@ -422,4 +422,22 @@ example : untouched asCoded (seq2 (linearLeaf 1 "0") (normLeaf .bn1 4 "1" true t
       | cons b q0 => simp at hr
   rcases this with rfl | rfl <;> (simp [infoAt, subAt, seq2, Forest.ofList, Forest.find, linearLeaf] at hi; subst hi; decide)
 
+/-! ## The mode of a replacement -/
+
+theorem forest_all_mode (b : Bool) (k : Forest) : (k.setMode b).all (fun i => i.training == b) = true := by
+  induction k with
+  | nil => rfl
+  | cons i kk r ihk ihr => simp [Forest.setMode, Forest.all, ihk, ihr]
+
+/-- **replacement_keeps_mode** (repaired variant, fix f277a95): whatever the fixer built, the replacement `fix` installs –
+the layer and everything below it – is in the mode (train / eval) of the layer it replaces; in particular an eval-mode
+layer with dropout stays deterministic. -/
+theorem replacement_keeps_mode (v : Variant) (hk : v.keepMode = true) (m r : Tree) :
+    (installed v m r).all (fun i => i.training == m.info.training) = true := by
+  simp [installed, hk, setMode, Tree.all, forest_all_mode]
+
+/-- as coded (before the fix) the replacement is whatever the fixer built: a freshly constructed, training-mode layer -/
+theorem replacement_as_built (v : Variant) (hk : v.keepMode = false) (m r : Tree) : installed v m r = r := by
+  simp [installed, hk]
+
 end Opacus.C15
